@@ -407,6 +407,8 @@ pub fn run_c14(out: &mut Out, tier: &str, _seed: u64) {
 /// C15: every released region is all-zero
 pub fn run_c15(out: &mut Out, tier: &str, _seed: u64) {
     let thorough = tier == "thorough";
+    // a container built from a slice of the wrong length would hold bytes outside what it reports (and wipes)
+    { let mut rng = Rng::new(_seed, "c15-extra"); crate::objapi::conversions(out, &mut rng); }
     let depth = if thorough { 5 } else { 3 };
     let lens: Vec<usize> = vec![1, 16, 100, PAGE - 1, PAGE, PAGE + 1, 2 * PAGE + 1, 5 * PAGE];
     let hb = sequences(depth, true, true, true);
